@@ -564,6 +564,52 @@ func (in *inliner) block(file *ast.File, encl *ast.FuncDecl, n ast.Node) bool {
 // only for their address) and constants.
 func (in *inliner) hoistNested(st ast.Stmt) []ast.Stmt {
 	info := in.pkg.TypesInfo
+	// return h(x), nil  →  r := h(x); return r, nil   (the other results are constants or plain
+	// identifiers, which a call cannot change before they are read… except variables the helper
+	// assigns: named results of the caller are excluded)
+	if rs, ok := st.(*ast.ReturnStmt); ok && len(rs.Results) > 1 {
+		for i, r := range rs.Results {
+			call, isCall := r.(*ast.CallExpr)
+			if !isCall {
+				continue
+			}
+			var fn *types.Func
+			switch f := call.Fun.(type) {
+			case *ast.Ident:
+				fn, _ = info.Uses[f].(*types.Func)
+			case *ast.SelectorExpr:
+				fn, _ = info.Uses[f.Sel].(*types.Func)
+			}
+			if fn == nil || in.cands[fn] == nil || fn.Type().(*types.Signature).Results().Len() != 1 {
+				continue
+			}
+			okOthers := true
+			for k, o := range rs.Results {
+				if k == i {
+					continue
+				}
+				switch x := o.(type) {
+				case *ast.BasicLit:
+				case *ast.Ident:
+					if obj := info.Uses[x]; obj != nil {
+						if _, isVar := obj.(*types.Var); isVar && k < i {
+							okOthers = false // read before the call in the original; keep it simple
+						}
+					}
+				default:
+					okOthers = false
+				}
+			}
+			if !okOthers {
+				continue
+			}
+			*in.serial++
+			name := fmt.Sprintf("h_x%d", *in.serial)
+			rs.Results[i] = ast.NewIdent(name)
+			in.counts["nested helper call bound to a temporary"]++
+			return []ast.Stmt{&ast.AssignStmt{Lhs: []ast.Expr{ast.NewIdent(name)}, Tok: token.DEFINE, Rhs: []ast.Expr{call}}}
+		}
+	}
 	var call *ast.CallExpr
 	switch s := st.(type) {
 	case *ast.ExprStmt:
